@@ -2,6 +2,8 @@
 
 package zoo
 
+import _ "unsafe"
+
 // second file: declaration order across files matters for initialisation
 
 var Late = early + 1
@@ -9,3 +11,14 @@ var Late = early + 1
 var early = func() int { return len(table) }()
 
 func (p Pair[K, V]) Swap() Pair[K, V] { return p }
+
+// A go:linkname directive that is NOT part of the function's doc comment (a blank line separates them): the
+// directive is a free-floating comment of the file.
+
+//go:linkname floating astzoo/zoo.target2
+
+func floating(x int) int
+
+func target2(x int) int { return x*5 + 2 }
+
+func UseFloating() int { return floating(3) }
